@@ -1,11 +1,13 @@
 (* Property C15 — great-circle primitives are mutually consistent.  PARTIAL: the
    statements below are proved of the real-valued formulas of geo/geo.go
    (coq/Sphere.v); Go's float64 rounding is bounded per sampled input by certified
-   interval enclosures on every run, and the destination clauses (distance back,
-   bearing back), semicircle encoding and monotonicity in float64 are checked as
-   flags over generated inputs. *)
-From Coq Require Import Reals ZArith.
-From GJ Require Import Sphere.
+   interval enclosures on every run.  The destination clauses (distance back,
+   bearing back) are proved over the reals too (SphereDest.v), the code's two
+   Atan2 calls entering through their defining property; in float64 they, the
+   semicircle encoding and monotonicity are checked as flags over generated
+   inputs. *)
+From Coq Require Import Reals ZArith Lra.
+From GJ Require Import Sphere SphereRect SphereDest.
 Open Scope R_scope.
 
 Theorem C15_distance_symmetric : forall a b c d, distance_to a b c d = distance_to c d a b.
@@ -33,6 +35,51 @@ Proof. exact normalize_idempotent. Qed.
 Theorem C15_metres_never_exceed_half_circumference : forall h, dist_from_hav h <= piR.
 Proof. exact dist_from_hav_le_piR. Qed.
 
+(* travelling d along bearing th from A: the haversine of (A, destination) is the haversine of d, the distance back
+   is d, and the arguments of the initial-bearing atan2 are (sin th, cos th) * sin (d/R), i.e. the bearing back is th.
+   The code's Atan2 calls enter through their defining property (hypotheses lat_sin .. lon_sin of SphereDest.v) *)
+Theorem C15_destination_distance_back : forall latA lonA latB lonB d th,
+  let del := d / Rearth in let p1 := rad latA in
+  let s := sin p1 * cos del + cos p1 * sin del * cos (rad th) in
+  let X := cos del - sin p1 * s in let Y := sin (rad th) * sin del * cos p1 in
+  sin (rad latB) = s -> 0 <= cos (rad latB) ->
+  cos (rad lonB - rad lonA) * sqrt (X * X + Y * Y) = X ->
+  0 < cos p1 -> 0 <= d <= piR ->
+  distance_to latA lonA latB lonB = d.
+Proof. exact destination_distance_back. Qed.
+
+Theorem C15_destination_bearing_back : forall latA lonA latB lonB d th,
+  let del := d / Rearth in let p1 := rad latA in
+  let s := sin p1 * cos del + cos p1 * sin del * cos (rad th) in
+  let X := cos del - sin p1 * s in let Y := sin (rad th) * sin del * cos p1 in
+  sin (rad latB) = s -> 0 <= cos (rad latB) ->
+  cos (rad lonB - rad lonA) * sqrt (X * X + Y * Y) = X ->
+  sin (rad lonB - rad lonA) * sqrt (X * X + Y * Y) = Y ->
+  0 < cos p1 ->
+  sin (rad lonB - rad lonA) * cos (rad latB) = sin (rad th) * sin del /\
+  cos p1 * sin (rad latB) - sin p1 * cos (rad latB) * cos (rad lonB - rad lonA) = cos (rad th) * sin del.
+Proof. exact destination_bearing_back. Qed.
+
+(* non-vacuity: from (0,0) eastwards by 10 degrees of arc; all hypotheses hold and the conclusion is used *)
+Example C15_destination_example : distance_to 0 0 0 10 = Rearth * rad 10.
+Proof.
+  assert (Hd : Rearth * rad 10 / Rearth = rad 10) by (unfold Rearth; field).
+  assert (H90 : rad 90 = PI / 2) by (unfold rad; field).
+  assert (H0 : rad 0 = 0) by (unfold rad; ring).
+  pose proof PI_RGT_0 as Hpi. pose proof PI_4 as Hpi4.
+  assert (Hr : 0 < rad 10 < PI / 2) by (unfold rad; lra).
+  apply (destination_distance_back 0 0 0 10 (Rearth * rad 10) 90); rewrite ?Hd, ?H90, ?H0, ?sin_0, ?cos_0, ?cos_PI2, ?sin_PI2.
+  - ring.
+  - lra.
+  - rewrite Rminus_0_r.
+    replace ((cos (rad 10) - 0 * (0 * cos (rad 10) + 1 * sin (rad 10) * 0)) * (cos (rad 10) - 0 * (0 * cos (rad 10) + 1 * sin (rad 10) * 0)) + 1 * sin (rad 10) * 1 * (1 * sin (rad 10) * 1))
+      with (sin (rad 10) * sin (rad 10) + cos (rad 10) * cos (rad 10)) by ring.
+    rewrite sqr_sin_cos, sqrt_1. ring.
+  - lra.
+  - unfold piR. split; [unfold Rearth; nra|]. unfold Rearth, rad. nra.
+Qed.
+
 Print Assumptions C15_distance_range.
+Print Assumptions C15_destination_distance_back.
 Print Assumptions C15_metres_haversine_metres.
 Print Assumptions C15_normalize_keeps_haversine.
